@@ -439,7 +439,8 @@ def s_libm(name):
     uninterpreted function of that name (sin / cos / tanh get their range)"""
     def f(*args):
         if not any(is_sym(a) for a in args) and (_CTX is None or not _CTX.exact) and hasattr(math, name):
-            return getattr(math, name)(*args)
+            r_ = getattr(math, name)(*args)
+            return float(r_) if isinstance(r_, int) and not isinstance(r_, bool) else r_      # libm returns doubles
         if not any(is_sym(a) for a in args) and name in ("sin", "tan", "tanh", "sinh", "atan", "asin") and all(a == 0 for a in args):
             return 0
         return _uf_apply(name, *args)
@@ -479,7 +480,7 @@ def sym_pow(base, e):
 
 
 def s_max(*args):
-    if len(args) == 1 and isinstance(args[0], (list, tuple)):
+    if len(args) == 1 and not is_sym(args[0]) and hasattr(args[0], "__iter__"):
         args = tuple(args[0])
     acc = args[0]
     for a in args[1:]:
@@ -495,7 +496,7 @@ def s_max(*args):
 
 
 def s_min(*args):
-    if len(args) == 1 and isinstance(args[0], (list, tuple)):
+    if len(args) == 1 and not is_sym(args[0]) and hasattr(args[0], "__iter__"):
         args = tuple(args[0])
     acc = args[0]
     for a in args[1:]:
